@@ -341,7 +341,8 @@ def _expand_dims_shape(shapes, vals):
 
 _add(Fun("expand_dims", "indexing", FH % "expand_dims", 1, variants=[(("axis", "int"),), (("axis", "ct:0"),)],
          sample=lambda rng, shapes, fixed: {"axis": fixed["axis"] if "axis" in fixed else rng.randint(0, len(shapes[0]))}, shape=_expand_dims_shape))
-_add(Fun("squeeze", "indexing", FH % "squeeze", 1, sample=_none, shape=lambda shapes, vals: [e for e in shapes[0] if e != 1]))
+_add(Fun("squeeze", "indexing", FH % "squeeze", 1, sample=lambda rng, shapes, fixed: {} if any(e != 1 for e in shapes[0]) else None,
+         shape=lambda shapes, vals: [e for e in shapes[0] if e != 1]))
 
 
 def _moveaxis_sample(rng, shapes, fixed):
